@@ -221,6 +221,12 @@ func c10Case(ctx *genCtx, ts *tape.Set, dir string) *genResult {
 		}
 	}
 	plan := drawPlan(ts.Fork("plan"))
+	if withFlags && ts.Fork("stall").Chance(1, 4) {
+		// a slow disk under the user's files: every write to them is held for a while. A run that ends
+		// (successfully or not) must have finished its rewrites: nothing half-written stays behind.
+		plan.Faults = append(plan.Faults, Fault{Kind: "stall", Op: -1, K: 150}, Fault{Kind: "exit-delay", K: 40})
+		res.probe("fault.slow_writes_to_user_files")
+	}
 	if outcome == "read-fault" {
 		var srcs []string
 		for _, k := range sortedKeysStr(files) {
